@@ -11,7 +11,7 @@ def main():
     names = corpus.select("c02", quick=(a.tier == "quick"))
     if a.only:
         names = [n for n in names if n in a.only.split(",")]
-    spec = {"tier": a.tier, "itypes": ["exterior_facet", "interior_facet", "vertex"], "rel": REL_STRICT, "options": STRICT_OPTS}
+    spec = {"tier": a.tier, "itypes": ["exterior_facet", "interior_facet", "vertex"], "rel": REL_STRICT, "options": STRICT_OPTS, "all_ids": True}
     run_cases(chk, "vlib.formcheck", "run_form", names, spec, a.jobs)
     if a.tier == "thorough":
         spec2 = dict(spec, rel=REL_DEFAULT, options={})
